@@ -13,7 +13,11 @@ Oracle: (1) around every read probe (chains of 1-4 links by name / long name / p
 ending in .value, len(), iteration, repr, to_er7, validate) the encodings (both trailing settings),
 the listed descendants (by identity) and the validation report of EVERY live handle are compared,
 and again after repeating the probe; (2) after every successful write through a chain the set of
-newly listed elements is compared with the links of the chain that did not exist.
+newly listed elements is compared with the links of the chain that did not exist; every element of the
+chain shows in the encoding of the one above it (write-not-encoded); the whole-element assignment / deletion that
+follows replaces / removes what the write created (created-element-not-ordinary); a text written through a chain
+that passes a varies field is not refused with ChildNotValid (chain-write-refused); x.n1...nk.add_<child>(name)
+.value = text reaches x (write-not-materialised, write_form add-helper-through-chain; oracle-only family).
 """
 import json
 import os
@@ -82,6 +86,31 @@ def extra_probe(impl, op):
         pass
 
 
+def through_varies(x, names):
+    """does the chain x.n1.n2... address component VARIES_n of a field of datatype varies?  (judged from the
+    structure data: the field's reference, or a field beyond the structure of an open-ended standard segment)"""
+    if isinstance(x, Field):
+        return x.datatype == 'varies' and bool(names) and re.match(r'^varies_[1-9][0-9]*$', names[0].lower()) is not None
+    if not isinstance(x, Segment) or len(names) < 2 or not re.match(r'^varies_[1-9][0-9]*$', names[1].lower()):
+        return False
+    n = names[0].upper()
+    sbn = x.__dict__.get('structure_by_name') or {}
+    sbl = x.__dict__.get('structure_by_longname') or {}
+    row = sbn.get(n) or sbl.get(n)
+    if row is not None:
+        return len(row['ref']) > 2 and row['ref'][2] == 'varies'
+    return bool(x.allow_infinite_children) and not x.name.startswith('Z') and \
+        re.match(r'^%s_[1-9][0-9]*$' % re.escape(x.name), n) is not None
+
+
+def unstructured(impl, q):
+    """a Field / Component of a complex datatype that carries no child structure (a field made for a varies position
+    - OBX_5, QPD_3 - and given a datatype)"""
+    if not isinstance(q, (Field, Component)) or not q.datatype or q.datatype == 'varies':
+        return False
+    return not impl.lib.is_base_datatype(q.datatype) and not q.ordered_children
+
+
 def path_elements(impl, x, names):
     """the elements a chain addresses after a write (they exist now: reading creates nothing)"""
     path = []
@@ -118,7 +147,7 @@ def main(argv=None):
         cases = []
         for k in range(nhist // len(versions)):
             lvl = H.TOLERANT if k % 2 == 0 else H.STRICT
-            g = H.Gen(rng, v, lvl, profile=('segment' if k % 2 else 'deep'), nsteps=nsteps)
+            g = H.Gen(rng, v, lvl, profile=('open' if k % 6 == 1 else ('segment' if k % 2 else 'deep')), nsteps=nsteps)
             hook = make_hook(run, g, v, lvl, stats, shapes)
             # ordinary steps interleaved with dedicated probes: every read is applied twice
             for _ in range(nsteps):
@@ -152,6 +181,21 @@ def main(argv=None):
                         ops.append(['toer7', 0])
                         stats['msh_histories'] += 1
                         oracle_on_history(run, v, ops, lvl, stats, shapes)
+    # additions at the end of a chain: x.n1...nk.add_<child>(name).value = text on a chain of missing elements (the
+    # helper is called on the read-created element; outside the Coq model's operation alphabet: oracle only)
+    stats['helper_histories'] = 0
+    for v in versions:
+        for lvl in (H.TOLERANT, H.STRICT):
+            for root, names, child, text in ((['newseg', lvl, 'PID'], ['pid_5'], 'xpn_1', 'A'),
+                                             (['newseg', lvl, 'PID'], ['pid_3'], 'cx_1', '7'),
+                                             (['newseg', lvl, 'PID'], ['pid_5', 'xpn_1'], 'fn_1', 'A'),
+                                             (['newmsg', lvl, 'ADT_A01', None], ['pid'], 'pid_1', '1'),
+                                             (['newmsg', lvl, 'ADT_A01', None], ['evn'], 'evn_1', 'A01')):
+                for nreads in (0, 1):
+                    ops = [root] + [['readvalue', 0, names]] * nreads
+                    ops += [['addhelperchain', 0, names, child], ['setvalue', 1, text], ['toer7', 0]]
+                    stats['helper_histories'] += 1
+                    oracle_on_history(run, v, ops, lvl, stats, shapes)
     run.log('implementation side: %d steps, %d read probes (%d repeated), %d chain writes checked, %d failures'
             % (stats['steps'], stats['read_probes'], stats['repeated_probes'], stats['chain_writes_checked'],
                len(run.failures)))
@@ -256,6 +300,24 @@ def make_hook(run, g, v, lvl, stats, shapes):
         is_read = k in READ_KINDS
         is_chain_write = (k == 'setattr' and len(op[2]) >= 2) or k in ('setvaluechain', 'setvaluenone')
         if phase == 'before':
+            if k == 'setdatatype' and 0 <= op[1] < len(impl.I) and len(impl.I[op[1]].children.list):
+                # a datatype change on a populated element (refused or not) may leave children that no longer fit the
+                # structure tables of the element (F9, C12's finding): what is read or encoded below it afterwards is not
+                # a matter of where a chain write put its value
+                state.setdefault('retyped', set()).add(id(impl.I[op[1]]))
+            state['follow'] = None
+            made = state.get('made')
+            if made is not None and k in ('setattr', 'delattr', 'delindex') and op[1] == made['h'] and \
+                    0 < len(op[2]) <= len(made['path']) and op[2] == made['names'][:len(op[2])] and \
+                    (k != 'setattr' or op[3][0] == 't') and (k != 'delindex' or op[3] == 0):
+                # the whole-element assignment / deletion of an element that the previous write through a chain created
+                t = made['path'][len(op[2]) - 1]
+                par = made['path'][len(op[2]) - 2] if len(op[2]) >= 2 else made['x']
+                same = [c for c in par.children.list if c.name == t.name]
+                if id(t) in made['new'] and same and same[0] is t and sum(1 for c in same if c is t) == 1:
+                    state['follow'] = (t, par, len(same), made['form'])
+            if not is_read:
+                state['made'] = None
             if is_read:
                 state['snap'] = snapshot(impl, True)
             if is_chain_write and 0 <= op[1] < len(impl.I):
@@ -267,6 +329,48 @@ def make_hook(run, g, v, lvl, stats, shapes):
                 state['enc'] = snapshot(impl, False)
             return
         stats['steps'] += 1
+        if state.get('follow') is not None and data[0] == 0:
+            t, par, n0, form = state['follow']
+            n1 = sum(1 for c in par.children.list if c.name == t.name)
+            still = any(c is t for c in par.children.list)
+            want = n0 if k == 'setattr' else n0 - 1
+            stats['created_then_replaced_or_deleted'] = stats.get('created_then_replaced_or_deleted', 0) + 1
+            if n1 != want or still:
+                run.fail('created-element-not-ordinary', 'an element created by a write through a chain is not an ordinary '
+                         'child: after %s there are %d children named %s (before: %d) and the created one is %s listed'
+                         % ('its whole-element assignment' if k == 'setattr' else 'its deletion', n1, t.name, n0,
+                            'still' if still else 'no longer'),
+                         follow_up=k, depth=len(op[2]), write_form=form, version=v, level=lvl, ops=g.ops + [op], step=kk)
+                return
+        if is_chain_write and data[0] != 0 and 0 <= op[1] < len(impl.I):
+            exc = type(getattr(impl, 'last_exc', None)).__name__
+            text = op[3][1] if (k == 'setattr' and op[3][0] == 't') else (op[3] if k == 'setvaluechain' else None)
+            if exc == 'ChildNotValid' and isinstance(text, str) and through_varies(impl.I[op[1]], op[2]):
+                # a TEXT was assigned: no element was handed in that could be "not a valid child"
+                stats['chain_writes_refused_child_not_valid'] = stats.get('chain_writes_refused_child_not_valid', 0) + 1
+                run.fail('chain-write-refused', 'a text written through the chain %s is refused with ChildNotValid (%s)'
+                         % ('.'.join(op[2]), str(impl.last_exc)[:160]),
+                         through_varies=True, write_form=k,
+                         depth=len(op[2]), version=v, level=lvl, ops=g.ops + [op], step=kk)
+                return
+        if k == 'addhelperchain' and data[0] == 0 and 0 <= op[1] < len(impl.I):
+            state['helper'] = {'h': len(impl.I) - 1, 'x': impl.I[op[1]], 'names': list(op[2]) + [op[3]]}
+        hp = state.get('helper')
+        if k == 'setvalue' and hp is not None and op[1] == hp['h'] and data[0] == 0 and PLAIN.match(op[2] or ''):
+            # x.n1...nk.add_<child>(name).value = text: an addition at the end of a chain; the value is assigned to the
+            # element that was added, so that element and the chain above it must now hang below x
+            stats['helper_writes_checked'] = stats.get('helper_writes_checked', 0) + 1
+            y, x, n = impl.I[hp['h']], hp['x'], 0
+            while y is not x and n < 8:
+                par = y._parent
+                if par is None or not any(c is y for c in par.children.list):
+                    run.fail('write-not-materialised', 'x.%s.add_<child>(%r).value = %r ended normally but %r is not a listed '
+                             'child of the element above it: the value does not reach x (%r)'
+                             % ('.'.join(hp['names'][:-1]), hp['names'][-1], op[2], y, x.to_er7(impl.ec)[:80]),
+                             write_form='add-helper-through-chain', depth=len(hp['names']), root_class=x.classname,
+                             version=v, level=lvl, ops=g.ops + [op], step=kk)
+                    return
+                y, n = par, n + 1
         if is_read:
             extra_probe(impl, op)
             after = snapshot(impl, True)
@@ -311,6 +415,7 @@ def make_hook(run, g, v, lvl, stats, shapes):
             stats['by_write_form'][k] = stats['by_write_form'].get(k, 0) + 1
             shapes.add((v, lvl, k, len(names), len(extra)))
             stats['materialised_links'] += len(extra)
+            state['made'] = {'h': op[1], 'x': x, 'path': path, 'names': names, 'new': set(new), 'form': k}
             if not extra <= on_path:
                 run.fail('write-created-more', 'a write through a chain listed elements that are not on the chain',
                          depth=len(names), version=v, level=lvl, ops=g.ops + [op], step=kk)
@@ -336,7 +441,8 @@ def make_hook(run, g, v, lvl, stats, shapes):
                     return
             # at its defined position: reading the same chain back gives the value
             text = op[3][1] if k == 'setattr' else (op[3] if k == 'setvaluechain' else None)
-            if isinstance(text, str) and PLAIN.match(text):
+            if isinstance(text, str) and PLAIN.match(text) and \
+                    not any(id(q) in state.get('retyped', ()) for q in [x] + path):
                 try:
                     back = impl.chain(op[1], names).value
                     back = H.value_text(back, impl.ec)
@@ -352,6 +458,24 @@ def make_hook(run, g, v, lvl, stats, shapes):
                     run.fail('write-not-readable', 'the value written through a chain reads back as %r, not %r' % (back, text),
                              depth=len(names), target_datatype=dtp, parent_datatype=pdt, version=v, level=lvl,
                              ops=g.ops + [op], step=kk)
+                    return
+                # ... and every element of the chain shows in the encoding of the one above it
+                if not varies and not any(n.lower().startswith('msh_') for n in names):
+                    stats['chain_writes_encoding_checked'] = stats.get('chain_writes_encoding_checked', 0) + 1
+                    prev = x
+                    for j, p in enumerate(path):
+                        try:
+                            ce, pe = p.to_er7(impl.ec), prev.to_er7(impl.ec)
+                        except Exception:  # noqa
+                            break
+                        if ce and ce not in pe:
+                            run.fail('write-not-encoded', 'after a successful write through a chain %r encodes as %r, which '
+                                     'does not show in the encoding %r of %r' % (p, ce[:60], pe[:120], prev),
+                                     depth=len(names), link=j, write_form=k, unstructured_complex=unstructured(impl, prev),
+                                     open_ended=bool(isinstance(x, Segment) and x.allow_infinite_children),
+                                     version=v, level=lvl, ops=g.ops + [op], step=kk)
+                            return
+                        prev = p
     return hook
 
 
